@@ -111,7 +111,7 @@ pub fn expected_sheets(c: &Case) -> (Sheet, Sheet, usize) {
                 }
                 Node::Import(im) if c.import_sign.is_some() => {
                     let path = match &im.form {
-                        css::ImportForm::Str(s) | css::ImportForm::UrlFn(s) | css::ImportForm::Url(s) => s.clone(),
+                        css::ImportForm::Str(s) | css::ImportForm::UrlFn(s) | css::ImportForm::Url(s) | css::ImportForm::UrlFnNamed(_, s) => s.clone(),
                     };
                     normal.push(Node::ImportPlaceholder { layer: im.layer.clone(), supports: im.supports.clone(), media: im.media.clone(), comment_path: path });
                 }
@@ -155,7 +155,7 @@ impl PropCheck for C17 {
 
     fn strategy(&self) -> BoxedStrategy<Case> {
         let prop = self.prop;
-        (gen::css::sheet(&self.cfg), any::<u64>(), opts_strategy(), proptest::bool::weighted(0.85), proptest::option::of(prop_oneof![Just("IS"), Just("h\"q"), Just("组件")]), proptest::bool::weighted(0.8))
+        (gen::css::sheet(&self.cfg), any::<u64>(), opts_strategy(), proptest::bool::weighted(0.85), proptest::option::of(prop_oneof![Just("IS"), Just("h\"q"), Just("组件"), Just("a\tb"), Just("cafe\u{301}"), Just("z\u{200d}w"), Just("b\\s"), Just("n\nl")]), proptest::bool::weighted(0.8))
             .prop_map(move |(sheet, style, opts, ch, host_is, sign)| Case {
                 sheet,
                 style,
